@@ -106,3 +106,16 @@ package selection
 //@ loop #1
 //@   invariant [seen_exact] forall k label.TargetLabel :: {has(graph.nodes, k)} seen(k) && has(graph.nodes, k) && !old(isSel(nodeAt(graph, k))) ==> (isSel(nodeAt(graph, k)) <==> matchesFilters(s, nodeAt(graph, k)) && platformOK(nodeAt(graph, k)))
 //@   invariant [unseen_untouched] forall k label.TargetLabel :: {has(graph.nodes, k)} !seen(k) && has(graph.nodes, k) ==> isSel(nodeAt(graph, k)) == old(isSel(nodeAt(graph, k)))
+
+// C20: `deps` / `rdeps` filter the dependency list by tags and target type: exactly the matching nodes, order kept,
+// nothing duplicated.
+//@ func (*Selector).FilterNodes(s, nodes) (r)
+//@   pure
+//@   requires [nodes] forall j int :: {nodes[j]} 0 <= j && j < len(nodes) ==> isNode(nodes[j])
+//@   ensures [exactly_matches] (forall x model.BuildNode :: {inNodes(r, x)} inNodes(r, x) ==> inNodes(nodes, x) && matchesFilters(s, x) && platformOK(x)) &&
+//@        (forall j int :: {nodes[j]} 0 <= j && j < len(nodes) && matchesFilters(s, nodes[j]) && platformOK(nodes[j]) ==> inNodes(r, nodes[j]))
+//@   ensures [no_new_duplicates] noDup(nodes) ==> noDup(r)
+//@ loop #1
+//@   invariant [kept_match] forall x model.BuildNode :: {inNodes(filteredLabels, x)} inNodes(filteredLabels, x) ==> (exists j int :: 0 <= j && j <= rangeindex && nodes[j] == x) && matchesFilters(s, x) && platformOK(x)
+//@   invariant [matches_kept] forall j int :: {nodes[j]} 0 <= j && j <= rangeindex && matchesFilters(s, nodes[j]) && platformOK(nodes[j]) ==> inNodes(filteredLabels, nodes[j])
+//@   invariant [no_new_duplicates] noDup(nodes) ==> noDup(filteredLabels)
